@@ -193,9 +193,7 @@ def deserFields (O : Oracles) (opts : DeserOpts) (c : ClassOpts) (doc : List (St
     | some v =>
       match deser O opts c.ignoreNone f v with
       | .ok y => bindE (deserFields O opts c doc rest errs) fun ys => .ok ((name, y) :: ys)
-      | .error e =>
-        if !truthy v && collectable e then deserFields O opts c doc rest true
-        else .error e
+      | .error e => .error e    -- fail-fast mode (the default): the field's own exception propagates
 termination_by structural fs _ => fs
 
 end
